@@ -73,6 +73,20 @@ class Ctx:
         self.excluded[key] += 1
 
 
+def compact_sample(plan, limit=6000):
+    """A sample for the evidence file: batches (lists of sub-plans) are cut to their first element."""
+    if len(json.dumps(plan, default=str)) <= limit or not isinstance(plan, dict):
+        return plan
+    out = {}
+    for k, v in plan.items():
+        if isinstance(v, list) and len(v) > 1 and all(isinstance(x, dict) for x in v):
+            out[k] = [compact_sample(v[0], limit)]
+            out["_%s_total" % k] = len(v)
+        else:
+            out[k] = v
+    return out
+
+
 def plan_hash(plan):
     return hashlib.sha1(json.dumps(plan, sort_keys=True, default=str).encode()).hexdigest()[:16]
 
@@ -412,9 +426,9 @@ def parent_main(prop, tier, only=None):
     samples = []
     for name, m in subs.items():
         for p in m["samples_nt"][:3]:
-            samples.append({"subcheck": name, "nontrivial": True, "plan": p})
+            samples.append({"subcheck": name, "nontrivial": True, "plan": compact_sample(p)})
         for p in m["samples_tr"][:1]:
-            samples.append({"subcheck": name, "nontrivial": False, "plan": p})
+            samples.append({"subcheck": name, "nontrivial": False, "plan": compact_sample(p)})
     sub_table = {name: {"evaluations": m["evaluations"], "distinct_nontrivial": len(m["nontrivial"]),
                         "skipped_ambiguous": m["skipped"], "known_finding_hits": dict(m["known_hits"]),
                         "workers_out_of_time": m["budget_exhausted"], "exhaustive": m["exhaustive"],
